@@ -118,8 +118,10 @@ class SRRLaser(Laser):
         """
         for i in range(len(self.data)):
             self.data[i] = rfn.rename_fields(self.data[i], names)
-        for old, new in names.items():
-            self.calibration[(new)] = self.calibration.pop(old)
+        # rename all at once, so that swaps and chains keep their calibrations
+        self.calibration = {
+            names.get(name, name): cal for name, cal in self.calibration.items()
+        }
 
     def get(
         self,
